@@ -272,8 +272,10 @@ func (s *keystore) loadSize() {
 	}
 
 	s.size = int(binary.BigEndian.Uint64(sizeBytes))
-	// Delete immediately to keep the key ephemeral.
+	// Delete immediately to keep the key ephemeral, and make the deletion
+	// durable: a stale size must not survive a crash that keeps later writes.
 	s.ds.Delete(context.Background(), sizeKey)
+	s.ds.Sync(context.Background(), sizeKey)
 }
 
 // persistSize saves the current size to the datastore as a startup optimization.
